@@ -21,7 +21,10 @@ pub struct Fdt {
     oti: oti::Oti,
     files_transfer_queue: VecDeque<Arc<FileDesc>>,
     fdt_transfer_queue: VecDeque<Arc<FileDesc>>,
+    #[cfg(not(feature = "verif"))]
     files: std::collections::HashMap<u128, Arc<FileDesc>>,
+    #[cfg(feature = "verif")]
+    files: std::collections::BTreeMap<u128, Arc<FileDesc>>,
     current_fdt_transfer: Option<Arc<FileDesc>>,
     complete: Option<bool>,
     cenc: lct::Cenc,
@@ -56,7 +59,10 @@ impl Fdt {
             oti: default_oti.clone(),
             files_transfer_queue: VecDeque::new(),
             fdt_transfer_queue: VecDeque::new(),
+            #[cfg(not(feature = "verif"))]
             files: std::collections::HashMap::new(),
+            #[cfg(feature = "verif")]
+            files: std::collections::BTreeMap::new(),
             current_fdt_transfer: None,
             complete: None,
             cenc,
